@@ -339,6 +339,38 @@ def scenario_interleave(rng, sc, tag, prefix, nproc, schedule):
         w.close()
 
 
+def scenario_probe(rng, sc, tag, prefix, a, b, crash):
+    """two indexing runs racing (the first has made `a` steps, the second `b`), optionally the second dies there; a READER then loads
+    (it must fail loudly or see exactly the current content); the writers finish; a last fresh load"""
+    w = World(sc, tag)
+    try:
+        for x in prefix:
+            if x == "tick":
+                w.tick()
+            elif x == "rewrite":
+                w.tick(); w.rewrite()
+            elif x == "rewrite-same-tick":
+                w.rewrite()
+            elif x == "load":
+                p = w.spawn(); w.run_to_end(p)
+        p0, p1 = w.spawn(), w.spawn()
+        for _ in range(a):
+            w.step(p0)
+        for _ in range(b):
+            w.step(p1)
+        if crash:
+            w.crash(p1)
+        r = w.spawn(); w.run_to_end(r)
+        w.run_to_end(p0)
+        if not crash:
+            w.run_to_end(p1)
+        w.tick()
+        r2 = w.spawn(); w.run_to_end(r2)
+        return w, {"kind": "writers-and-reader", "prefix": prefix, "a": a, "b": b, "second_writer_dies": crash}
+    finally:
+        w.close()
+
+
 PREFIXES = [[], ["load", "tick"], ["load", "tick", "rewrite", "tick"], ["load", "rewrite-same-tick"],
             ["load", "rewrite-same-tick", "load", "rewrite"]]
 
@@ -424,6 +456,17 @@ def run(ctx):
         for s in scheds[: (120 if ctx.thorough else 14)]:
             w, d = scenario_interleave(rng, sc, next(tag), rng.choice(PREFIXES), 2, s)
             judge(w, out, "interleavings", d)
+        # a reader (and a later fresh load) while two indexing runs race, the second possibly dying: quick = a seeded sample of the
+        # (a, b, dies) grid, thorough = the whole grid from a cold start + a sample from the stale start
+        grid = [(a, b, c) for a in range(0, 16) for b in range(0, 16) for c in (False, True)]
+        picks = grid if ctx.thorough else rng.sample(grid, 16)
+        for a, b, c in picks:
+            w, d = scenario_probe(rng, sc, next(tag), PREFIXES[0], a, b, c)
+            judge(w, out, "writers-and-reader", d)
+        if ctx.thorough:
+            for a, b, c in rng.sample(grid, 80):
+                w, d = scenario_probe(rng, sc, next(tag), PREFIXES[2], a, b, c)
+                judge(w, out, "writers-and-reader", d)
         if ctx.thorough:
             for _ in range(30):
                 s = [rng.choice([0, 1, 2, "t"]) for _ in range(rng.randint(5, 30))]
@@ -450,6 +493,14 @@ def search(ctx, broken):
                 s = [ctx.rng.choice([0, 1, "t"]) for _ in range(ctx.rng.randint(5, 30))]
                 w, d = scenario_interleave(ctx.rng, sc, next(tag), ctx.rng.choice(PREFIXES), 2, s)
                 judge(w, ctx.out, "search-interleavings", d)
+            # the whole writers-and-reader grid from a cold start (stop at the first failing history)
+            for a in range(0, 16):
+                for b in range(0, 16):
+                    for c in (False, True):
+                        w, d = scenario_probe(ctx.rng, sc, next(tag), PREFIXES[0], a, b, c)
+                        judge(w, ctx.out, "search-writers-and-reader", d)
+                if any(not f.get("finding") for f in ctx.out.oracle_failures[n0:]):
+                    break
     finally:
         ctx_driver[0] = saved
     new = [f for f in ctx.out.oracle_failures[n0:] if not f.get("finding")]
